@@ -943,3 +943,20 @@ def expanded(db, f, depth=2):
     f2["_expanded"] = f2
     f["_expanded"] = f2
     return f2
+
+
+def deep_text(db, f, e, depth=2):
+    """expr_str of e with single-assignment locals read through, followed by the text of what every library one-liner
+    (`return EXPR;`) called in it returns: `!extract_more_frag(ip)` reads `... ((ip->flags() & MORE_FRAGMENTS) != 0)`.
+    For rules that look for WHAT a guard tests, wherever the test was moved to."""
+    e = inline_locals(f, e)
+    out = [expr_str(e)]
+    if depth > 0 and db is not None:
+        for x in walk(e):
+            if x["k"] in ("CallExpr", "CXXMemberCallExpr") and x.get("callee") and not x.get("ext"):
+                h = db.fn(x["callee"])
+                if h is not None and h.get("body") and h is not f and (h.get("file") or "").startswith(("src/", "include/tins")):
+                    st = [y for y in h["body"].get("c", []) if y is not None]
+                    if len(st) == 1 and st[0]["k"] == "ReturnStmt" and st[0].get("c"):
+                        out.append(deep_text(db, h, st[0]["c"][0], depth - 1))
+    return " ".join(out)
